@@ -1,14 +1,579 @@
-"""C02 continued: product spaces, discretized spaces, forwarding."""
+"""C02 continued: product-space weightings, discretized spaces (boundary
+fractions), defaults and forwarding."""
 from __future__ import annotations
+
+import ast
+import itertools
+from fractions import Fraction as Fr
+
+import numpy as _np
+
+from ..core import Undecided, AnalysisError
+from ..ratfun import Rat, satom
+from ..symex import (Interp, Hooks, Inst, Func, Builtin, Opaque, Rec, SArr,
+                     ClassV, PyRaise, is_scalar, to_rat)
+from ..namodel import NA, DT, na_of, objarr, as_dt
+from .. import posalg as PA
+from .c02 import (WH, WI, TensorV, CompV, PV, INF, IU, FIELD, EXPONENTS,
+                  pname, doc_norm, doc_inner, max_nf, scalar, call, guarded,
+                  WIT, make_data, ents, tspace, NPY, WGT, PSP, DSP, PART)
+
+
+# ---------------------------------------------------------------------------
+# product spaces
+# ---------------------------------------------------------------------------
+def _norm_atom(name):
+    return Rat.var(satom('norm', name))
+
+
+def pspace_config(model, kind, p, field, ncomp=3):
+    pos = {'c'}
+    wn = ['w%d' % i for i in range(ncomp)]
+    if kind == 'array':
+        pos |= set(wn)
+    signs = PA.Signs(pos)
+    H = WH(signs)
+    I = WI(model, {}, H)
+    dt = DT('complex128' if field == 'C' else 'float64')
+    csp = Rec('cspace', dtype=dt, field=FIELD)
+    psp = Rec('pspace', dtype=dt, field=FIELD)
+    cls = {'const': 'ProductSpaceConstWeighting',
+           'array': 'ProductSpaceArrayWeighting'}[kind]
+    pv = INF if p is INF else Rat.const(p)
+    if kind == 'const':
+        W = I.instantiate(model.get(cls), [Rat.var('c')], {'exponent': pv})
+        weights = None
+    else:
+        warr = NA(objarr([Rat.var(n) for n in wn]), 'float64')
+        W = I.instantiate(model.get(cls), [warr], {'exponent': pv})
+        weights = [Rat.var(n) for n in wn]
+    x = PV([CompV('x%d' % i, csp) for i in range(ncomp)], psp)
+    y = PV([CompV('y%d' % i, csp) for i in range(ncomp)], psp)
+    return I, H, W, x, y, weights, signs
+
+
+class _CIP(object):
+    """Symbolic component inner products (complex for complex spaces)."""
 
 
 def pspace_rules(rep, model):
-    pass
+    n = 0
+    c = Rat.var('c')
+    for kind in ('const', 'array'):
+        for p in EXPONENTS:
+            for field in ('R', 'C'):
+                tag = 'pspace-%s[p=%s,%s]' % (kind, pname(p), field)
+
+                def doc(norms, w, signs):
+                    if p is INF:
+                        if kind == 'const':
+                            return c * max_nf(norms, signs)
+                        return max_nf([a * b for a, b in zip(w, norms)],
+                                      signs)
+                    tot = Rat.const(0)
+                    for i, nn in enumerate(norms):
+                        wi = c if kind == 'const' else w[i]
+                        tot = tot + wi * PA.pow_q(nn, p, signs)
+                    return PA.pow_q(tot, 1 / p, signs)
+
+                def norm():
+                    I, H, W, x, y, w, signs = pspace_config(
+                        model, kind, p, field)
+                    got = scalar(call(I, W, 'norm', x))
+                    want = doc([_norm_atom(q.name) for q in x.parts], w,
+                               signs)
+                    if not PA.equal_pos(got, want, WIT):
+                        return 'norm computes %r, documented %r' % (got,
+                                                                    want)
+                guarded(rep, 'R1', 'norm:' + tag, norm, PSP)
+
+                def dist():
+                    I, H, W, x, y, w, signs = pspace_config(
+                        model, kind, p, field)
+                    got = scalar(call(I, W, 'dist', x, y))
+                    want = doc([_norm_atom('(%s-%s)' % (a.name, b.name))
+                                for a, b in zip(x.parts, y.parts)], w,
+                               signs)
+                    if not PA.equal_pos(got, want, WIT):
+                        return 'dist computes %r, documented %r' % (got,
+                                                                    want)
+                    nd = scalar(call(I, W, 'norm', H.on_binop(
+                        I, ast.Sub, x, y)))
+                    if not PA.equal_pos(got, nd, WIT):
+                        return 'dist(x, y) = %r differs from norm(x - y) ' \
+                            '= %r' % (got, nd)
+                guarded(rep, 'R1', 'dist:' + tag, dist, PSP)
+
+                def inner():
+                    I, H, W, x, y, w, signs = pspace_config(
+                        model, kind, p, field)
+                    if p != 2:
+                        try:
+                            call(I, W, 'inner', x, y)
+                        except PyRaise as e:
+                            return None if e.name == 'NotImplementedError' \
+                                else 'inner raises %s' % e.name
+                        return 'inner is defined for exponent %s' % pname(p)
+                    got = PA.ired(scalar(call(I, W, 'inner', x, y)))
+                    want = Rat.const(0)
+                    for i, (a, b) in enumerate(zip(x.parts, y.parts)):
+                        wi = c if kind == 'const' else w[i]
+                        want = want + wi * H.comp_inner(a, b)
+                    if not PA.equal_exact(got, want, WIT):
+                        return 'inner computes %r, documented %r' % (got,
+                                                                     want)
+                    nx = scalar(call(I, W, 'norm', x))
+                    ixx = PA.ired(scalar(call(I, W, 'inner', x, x)))
+                    if not PA.equal_exact(nx * nx, ixx, WIT):
+                        return 'norm(x)^2 = %r differs from inner(x, x) = ' \
+                            '%r' % (nx * nx, ixx)
+                guarded(rep, 'R2' if p == 2 else 'R6', 'inner:' + tag, inner,
+                        PSP)
+                n += 3
+    rep.floor('R1', 'product-space weighting evaluations', n, 60)
+
+
+# ---------------------------------------------------------------------------
+# discretized spaces
+# ---------------------------------------------------------------------------
+class DiscrV(object):
+    """Discretized-space element (array-like with a tensor)."""
+
+    isinstance_names = ('DiscretizedSpaceElement', 'LinearSpaceElement')
+
+    def __init__(self, data, sp):
+        self.data = data
+        self.sp = sp
+
+
+class DH(WH):
+    def on_getattr(self, interp, obj, name):
+        if isinstance(obj, DiscrV):
+            if name == 'ndim':
+                return obj.data.a.ndim
+            if name == 'shape':
+                return obj.data.a.shape
+            if name == 'tensor':
+                return TensorV(obj.data, obj.sp)
+            if name == 'copy':
+                return Builtin('copy', lambda: DiscrV(NA(
+                    obj.data.a.copy(), obj.data.dt), obj.sp))
+            if name == 'asarray':
+                return Builtin('asarray', lambda **k: obj.data)
+            raise PyRaise('AttributeError')
+        return WH.on_getattr(self, interp, obj, name)
+
+    def on_subscript(self, interp, obj, idx):
+        if isinstance(obj, DiscrV):
+            return WH.on_subscript(self, interp, obj.data, idx)
+        return WH.on_subscript(self, interp, obj, idx)
+
+    def np_func(self, I, name):
+        f = WH.np_func(self, I, name)
+        if name in ('asarray', 'array') and f is not None:
+            return lambda v, *a, **k: f(
+                v.data if isinstance(v, DiscrV) else v, *a, **k)
+        return f
+
+
+class DI(WI):
+    def assign(self, t, v, scope, func):
+        if isinstance(t, ast.Subscript):
+            obj = self.ev(t.value, scope, func)
+            if isinstance(obj, DiscrV):
+                idx = self._na_index(t.slice, scope, func)
+                self.hooks.store(self, obj.data, idx, v)
+                return
+        return WI.assign(self, t, v, scope, func)
+
+
+def discr_config(model, p, shape, fracs, field='R'):
+    """DiscretizedSpace instance over a const-weighted tensor space."""
+    pos = {'cv'}
+    for ax in fracs:
+        for f in ax:
+            if isinstance(f, Rat):
+                pos |= set(v for v in f.vars() if isinstance(v, str))
+    signs = PA.Signs(pos)
+    H = DH(signs)
+    I = DI(model, {}, H)
+    pv = INF if p is INF else Rat.const(p)
+    W = I.instantiate(model.get('NumpyTensorSpaceConstWeighting'),
+                      [Rat.var('cv')], {'exponent': pv})
+    dt = 'complex128' if field == 'C' else 'float64'
+    tsp_rec = tspace(dt)
+
+    def element(v=None, **k):
+        if isinstance(v, DiscrV):
+            v = v.data
+        if isinstance(v, TensorV):
+            return v
+        return TensorV(na_of(v), tsp_rec)
+    ts = Rec('tspace', is_weighted=True, exponent=pv,
+             element=Builtin('tspace.element', element),
+             inner=Builtin('tspace.inner',
+                           lambda a, b: call(I, W, 'inner', a, b)),
+             norm=Builtin('tspace.norm', lambda a: call(I, W, 'norm', a)),
+             dist=Builtin('tspace.dist',
+                          lambda a, b: call(I, W, 'dist', a, b)))
+    ci = model.get('DiscretizedSpace')
+    sp = Inst(ci)
+    sp.attrs.update({
+        'partition': Rec('partition', boundary_cell_fractions=tuple(
+            tuple(ax) for ax in fracs)),
+        'is_uniform': True, 'exponent': pv, 'tspace': ts})
+
+    def mk(name):
+        a = _np.empty(shape, dtype=object)
+        for idx in _np.ndindex(*shape):
+            s = ''.join(str(i) for i in idx)
+            v = Rat.var(name + s)
+            if field == 'C':
+                v = v + IU * Rat.var(name + 'i' + s)
+            a[idx] = v
+        return DiscrV(NA(a, dt), tsp_rec)
+    return I, H, sp, mk('x'), mk('y'), signs
+
+
+def frac_weights(shape, fracs):
+    """Cell fraction of every sample: product over the axes."""
+    out = {}
+    for idx in _np.ndindex(*shape):
+        w = Rat.const(1)
+        for ax, i in enumerate(idx):
+            fl, fr = fracs[ax]
+            if shape[ax] == 1:
+                # both fractions act on the single sample
+                w = w * to_rat(fl) * to_rat(fr)
+            elif i == 0:
+                w = w * to_rat(fl)
+            elif i == shape[ax] - 1:
+                w = w * to_rat(fr)
+        out[idx] = w
+    return out
 
 
 def discr_rules(rep, model, thorough):
-    pass
+    ci = model.get('DiscretizedSpace')
+    if ci is None or not all(m in ci.methods for m in ('_inner', '_norm',
+                                                       '_dist')):
+        raise AnalysisError('anchor vanished: DiscretizedSpace._inner')
+    F = lambda n: Rat.var(n)
+    configs = [
+        ('1d', (3,), [(F('fl0'), F('fr0'))]),
+        ('2d', (3, 2), [(F('fl0'), F('fr0')), (F('fl1'), F('fr1'))]),
+        ('2d-some-whole', (3, 3), [(F('fl0'), 1), (1, F('fr1'))]),
+        ('2d-all-whole', (2, 2), [(1, 1), (1, 1)]),
+    ]
+    if thorough:
+        configs.append(('3d', (2, 3, 2), [(F('fl0'), F('fr0')),
+                                         (F('fl1'), 1),
+                                         (F('fl2'), F('fr2'))]))
+    cv = Rat.var('cv')
+    n = 0
+    for cname, shape, fracs in configs:
+        for p in EXPONENTS:
+            for field in (('R', 'C') if cname in ('1d', '2d') else ('R',)):
+                tag = 'discr-%s[p=%s,%s]' % (cname, pname(p), field)
+                fw = frac_weights(shape, fracs)
+
+                def weights_for(signs):
+                    # inf: the boundary fractions do not enter
+                    if p is INF:
+                        return None
+                    return [cv * fw[idx] for idx in _np.ndindex(*shape)]
+
+                def norm():
+                    I, H, sp, x, y, signs = discr_config(model, p, shape,
+                                                         fracs, field)
+                    got = scalar(call(I, sp, '_norm', x))
+                    e = [to_rat(v) for v in x.data.a.ravel()]
+                    w = weights_for(signs)
+                    want = doc_norm(e, w, p, signs,
+                                    cv if w is None else None)
+                    if not PA.equal_pos(got, want, WIT):
+                        return 'norm computes %r, documented %r' % (got,
+                                                                    want)
+                guarded(rep, 'R3', 'norm:' + tag, norm, DSP)
+
+                def dist():
+                    I, H, sp, x, y, signs = discr_config(model, p, shape,
+                                                         fracs, field)
+                    got = scalar(call(I, sp, '_dist', x, y))
+                    e = [to_rat(a) - to_rat(b) for a, b in zip(
+                        x.data.a.ravel(), y.data.a.ravel())]
+                    w = weights_for(signs)
+                    want = doc_norm(e, w, p, signs,
+                                    cv if w is None else None)
+                    if not PA.equal_pos(got, want, WIT):
+                        return 'dist computes %r, documented %r' % (got,
+                                                                    want)
+                guarded(rep, 'R3', 'dist:' + tag, dist, DSP)
+                n += 2
+                if p == 2:
+                    def inner():
+                        I, H, sp, x, y, signs = discr_config(
+                            model, p, shape, fracs, field)
+                        got = PA.ired(scalar(call(I, sp, '_inner', x, y)))
+                        xe = [to_rat(v) for v in x.data.a.ravel()]
+                        ye = [to_rat(v) for v in y.data.a.ravel()]
+                        want = doc_inner(xe, ye, weights_for(signs))
+                        if not PA.equal_exact(got, want, WIT):
+                            return 'inner computes %r, documented %r' % (
+                                got, want)
+                        # the operands must not be modified
+                        for nm, el in (('x', x), ('y', y)):
+                            for idx in _np.ndindex(*shape):
+                                s = ''.join(str(i) for i in idx)
+                                ref = Rat.var(nm + s)
+                                if field == 'C':
+                                    ref = ref + IU * Rat.var(nm + 'i' + s)
+                                if not (to_rat(el.data.a[idx])
+                                        - ref).is_zero():
+                                    return 'operand %s is modified' % nm
+                    guarded(rep, 'R3', 'inner:' + tag, inner, DSP)
+                    n += 1
+    rep.floor('R3', 'discretized-space evaluations', n, 60)
+    _fractions(rep, model)
+    _one_volume(rep, model)
+    _defaults(rep, model)
 
 
+def _partition(model, I, n, ax):
+    """RectPartition instance over a uniform symbolic grid of n nodes."""
+    c0, h = Rat.var('c0_%d' % ax), Rat.var('h%d' % ax)
+    bmin, bmax = Rat.var('bmin%d' % ax), Rat.var('bmax%d' % ax)
+    cvec = NA(objarr([c0 + h * k for k in range(n)]), 'float64')
+    return cvec, bmin, bmax, h
+
+
+def _fractions_of(model, I, ns):
+    ci = model.get('RectPartition')
+    if ci is None:
+        raise AnalysisError('anchor vanished: RectPartition')
+    part = Inst(ci)
+    axes = [_partition(model, I, n, ax) for ax, n in enumerate(ns)]
+    part.attrs.update({
+        'grid': Rec('grid', coord_vectors=tuple(a[0] for a in axes)),
+        'set': Rec('set', min_pt=[a[1] for a in axes],
+                   max_pt=[a[2] for a in axes])})
+    fr = I.getattr_value(part, 'boundary_cell_fractions')
+    return fr, axes
+
+
+def _fractions(rep, model):
+    """Sum of the cell fractions times the cell side = extent per axis."""
+    for n in (1, 2, 3, 5):
+        def f(n=n):
+            H = WH(PA.Signs({'h0'}))
+            I = WI(model, {}, H)
+            fr, axes = _fractions_of(model, I, [n])
+            fl, frr = (to_rat(v) for v in fr[0])
+            cvec, bmin, bmax, h = axes[0]
+            if n == 1:
+                if not (fl == Rat.const(1) and frr == Rat.const(1)):
+                    return 'degenerate axis has fractions %r, %r' % (fl, frr)
+                return None
+            total = (Rat.const(n - 2) + fl + frr) * h
+            if not (total - (bmax - bmin)).is_zero():
+                return 'cells cover %r instead of the extent' % (total,)
+        guarded(rep, 'R3', 'boundary_cell_fractions[n=%d]' % n, f, PART)
+
+
+def _one_volume(rep, model):
+    """|| one ||^2 = volume on a 2-d space whose fractions come from the
+    partition itself and whose weight is the cell volume."""
+    def f():
+        H0 = WH(PA.Signs({'h0', 'h1'}))
+        I0 = WI(model, {}, H0)
+        fr, axes = _fractions_of(model, I0, [3, 2])
+        fracs = [tuple(to_rat(v) for v in ax) for ax in fr]
+        shape = (3, 2)
+        I, H, sp, x, y, signs = discr_config(model, Fr(2), shape, fracs)
+        x.data.a.fill(Rat.const(1))
+        got = scalar(call(I, sp, '_norm', x))
+        vol = Rat.const(1)
+        for cvec, bmin, bmax, h in axes:
+            vol = vol * (bmax - bmin)
+        # the default weight is the cell volume h0 * h1
+        g2 = PA.reduce_full(got * got).subs(
+            {'cv': Rat.var('h0') * Rat.var('h1')})
+        if not (PA.reduce_full(g2) - vol).n.is_zero():
+            return 'norm(one)^2 = %r, the volume is %r' % (g2, vol)
+    guarded(rep, 'R3', 'norm(one)^2 = volume', f, DSP)
+
+
+class UH(WH):
+    def __init__(self):
+        WH.__init__(self, PA.Signs())
+        self.tspace_calls = []
+        self.discr_calls = []
+
+    def on_name(self, interp, name):
+        if name == 'tensor_space_impl':
+            def impl(_):
+                def tst(shape, dtype, **kw):
+                    self.tspace_calls.append((shape, dtype, kw))
+                    return Rec('tspace-made')
+                b = Builtin('tspace_type', tst)
+                return Rec('tspace_type_rec', default_dtype=Builtin(
+                    'default_dtype', lambda: DT('float64')), call=b)
+            return Builtin('tensor_space_impl', impl)
+        return WH.on_name(self, interp, name)
+
+    def on_call(self, interp, f, args, kwargs, node):
+        if isinstance(f, Rec) and f.kind == 'tspace_type_rec':
+            return f.attrs['call'].fn(*args, **kwargs)
+        if isinstance(f, ClassV) and f.ci.name == 'DiscretizedSpace':
+            self.discr_calls.append((args, kwargs))
+            return Rec('discr-made')
+        if isinstance(f, Func) and f.name == 'is_numeric_dtype':
+            return as_dt(args[0]).d.kind in 'biufc'
+        return WH.on_call(self, interp, f, args, kwargs, node)
+
+
+def _defaults(rep, model):
+    fn = model.ctx.func(DSP, 'uniform_discr_frompartition')
+    if fn is None:
+        raise AnalysisError('anchor vanished: uniform_discr_frompartition')
+    cvol = Rat.var('cellvol')
+    cases = [
+        ('default', {}, 2, 'float64', cvol),
+        ('exponent=1', {'exponent': Rat.const(1)}, 2, 'float64', cvol),
+        ('exponent=inf', {'exponent': INF}, 2, 'float64', Rat.const(1)),
+        ('ndim=0', {}, 0, 'float64', Rat.const(1)),
+        ('complex', {}, 1, 'complex128', cvol),
+        ('explicit weighting', {'weighting': Rat.var('mine')}, 2, 'float64',
+         Rat.var('mine')),
+        ('non-numeric dtype', {}, 2, 'U1', None),
+    ]
+    for name, kw, ndim, dt, want in cases:
+        def f(kw=kw, ndim=ndim, dt=dt, want=want):
+            H = UH()
+            I = WI(model, {}, H)
+            part = Rec('RectPartition', is_uniform=True, ndim=ndim,
+                       shape=(3,) * ndim, cell_volume=cvol)
+            I.call_func(Func(fn, I.env_of(DSP), None), [part],
+                        dict(kw, dtype=DT(dt)))
+            if len(H.tspace_calls) != 1:
+                return '%d tensor spaces created' % len(H.tspace_calls)
+            shape, dtype, k = H.tspace_calls[0]
+            got = k.get('weighting')
+            if want is None:
+                if got is not None:
+                    return 'weighting %r for a non-numeric dtype' % (got,)
+            elif got is None or not (to_rat(got) - want).is_zero():
+                return 'weighting %r, expected %r' % (got, want)
+            ew = kw.get('exponent', Rat.const(2))
+            ge = k.get('exponent')
+            if not (ge is ew or (is_scalar(ge) and is_scalar(ew) and
+                                 (to_rat(ge) - to_rat(ew)).is_zero())):
+                return 'exponent %r handed to the tensor space' % (ge,)
+            if shape != (3,) * ndim:
+                return 'shape %r' % (shape,)
+        guarded(rep, 'R4', 'uniform_discr_frompartition[%s]' % name, f, DSP)
+
+
+# ---------------------------------------------------------------------------
+# forwarding of the space-level methods
+# ---------------------------------------------------------------------------
 def forwarding_rules(rep, model):
-    pass
+    for cls, rel in (('NumpyTensorSpace', NPY), ('ProductSpace', PSP)):
+        ci = model.get(cls)
+        if ci is None:
+            raise AnalysisError('anchor vanished: %s' % cls)
+        for meth, nargs in (('_inner', 2), ('_norm', 1), ('_dist', 2)):
+            def f(ci=ci, meth=meth, nargs=nargs):
+                seen = []
+                w = Rec('weighting')
+                for m in ('inner', 'norm', 'dist'):
+                    w.attrs[m] = Builtin(m, lambda *a, m=m: seen.append(
+                        (m, a)) or Rec('result:' + m))
+                I = WI(model, {}, WH(PA.Signs()))
+                sp = Inst(ci)
+                sp.attrs['weighting'] = w
+                sp.attrs['_%s__weighting' % ci.name] = w
+                args = [Rec('x1'), Rec('x2')][:nargs]
+                r = I.call(I.getattr_value(sp, meth), args, {})
+                if len(seen) != 1:
+                    return '%d weighting calls' % len(seen)
+                m, a = seen[0]
+                if m != meth[1:]:
+                    return 'forwards to weighting.%s' % m
+                if len(a) != nargs or any(x is not y
+                                          for x, y in zip(a, args)):
+                    return 'arguments not forwarded in order'
+                if not (isinstance(r, Rec) and r.kind == 'result:' + m):
+                    return 'result not returned'
+            guarded(rep, 'R5', '%s.%s' % (cls, meth), f, rel)
+    # LinearSpace.inner / norm / dist and the element methods
+    ls = model.get('LinearSpace')
+    for meth, nargs in (('inner', 2), ('norm', 1), ('dist', 2)):
+        for fld in (FIELD, None):
+            def f(meth=meth, nargs=nargs, fld=fld):
+                class LI(WI):
+                    def contains(self, cont, item, node):
+                        return True
+                I = LI(model, {}, WH(PA.Signs()))
+                sp = Inst(ls)
+                sp.attrs['field'] = fld
+                sp.attrs['_LinearSpace__field'] = fld
+                args = [Rec('x1'), Rec('x2')][:nargs]
+                # the value that is *returned* must come from a call with
+                # the arguments in order
+                sp.attrs['_' + meth] = Builtin('_' + meth, lambda *a: (
+                    Rat.var('val') if len(a) == nargs and all(
+                        x is y for x, y in zip(a, args))
+                    else Rat.var('misordered')))
+                r = I.call(I.getattr_value(sp, meth), args, {})
+                if not (is_scalar(r) and (to_rat(r) - Rat.var(
+                        'val')).is_zero()):
+                    return 'returns %r' % (r,)
+            guarded(rep, 'R5', 'LinearSpace.%s[field %s]' % (
+                meth, 'set' if fld is not None else 'None'), f,
+                'odl/set/space.py')
+    # defaults: _dist = norm(x1 - x2), _norm = sqrt(inner(x, x).real)
+    def fd():
+        I = WI(model, {}, WH(PA.Signs()))
+        sp = Inst(ls)
+        got = []
+        sp.attrs['norm'] = Builtin('norm', lambda v: got.append(v) or
+                                   Rat.var('n'))
+        x1, x2 = TensorV(make_data('x', '1d', 'R'), tspace('float64')), \
+            TensorV(make_data('y', '1d', 'R'), tspace('float64'))
+        dc, m = model.lookup(ls, '_dist')
+        r = I.call_func(Func(m, I.env_of(dc.rel), dc), [x1, x2], {}, sp)
+        if len(got) != 1 or not isinstance(got[0], TensorV):
+            return 'norm not applied to an element'
+        d = [to_rat(v) for v in got[0].data.a.ravel()]
+        w = [a - b for a, b in zip(ents(x1), ents(x2))]
+        if any(not (p - q).is_zero() for p, q in zip(d, w)):
+            return 'norm applied to %r, not to x1 - x2' % (d,)
+    guarded(rep, 'R5', 'LinearSpace._dist default', fd, 'odl/set/space.py')
+
+    def fn_():
+        I = WI(model, {}, WH(PA.Signs({'q'})))
+        sp = Inst(ls)
+        sp.attrs['inner'] = Builtin('inner', lambda a, b: (
+            Rat.var('q') if a is b else Rat.var('other')))
+        dc, m = model.lookup(ls, '_norm')
+        x = Rec('x')
+        r = I.call_func(Func(m, I.env_of(dc.rel), dc), [x], {}, sp)
+        if not PA.equal_pos(to_rat(r), PA.root(Rat.var('q'), 2,
+                                               PA.Signs({'q'})), WIT):
+            return 'default norm is %r, not sqrt(inner(x, x))' % (r,)
+    guarded(rep, 'R5', 'LinearSpace._norm default', fn_, 'odl/set/space.py')
+    # Weighting base defaults
+    wc = model.get('Weighting')
+
+    def fw():
+        I = WI(model, {}, WH(PA.Signs({'q'})))
+        w = Inst(wc)
+        w.attrs['inner'] = Builtin('inner', lambda a, b: (
+            Rat.var('q') if a is b else Rat.var('other')))
+        dc, m = model.lookup(wc, 'norm')
+        r = I.call_func(Func(m, I.env_of(dc.rel), dc), [Rec('x')], {}, w)
+        if not PA.equal_pos(to_rat(r), PA.root(Rat.var('q'), 2,
+                                               PA.Signs({'q'})), WIT):
+            return 'default norm is %r, not sqrt(inner(x, x))' % (r,)
+    guarded(rep, 'R5', 'Weighting.norm default', fw, WGT)
